@@ -413,6 +413,9 @@ impl<'a> Compiler<'a> {
                 .find(|(import, _)| *import == function)
             {
                 let (super_depth, suffix) = super_depth(alias);
+                if super_depth > self.current_namespace.len() {
+                    return Err(self.error(CompilationErrorPayload::SuperLimitReached));
+                }
                 let name = self
                     .current_namespace
                     .iter()
@@ -434,6 +437,9 @@ impl<'a> Compiler<'a> {
                 {
                     // namespace.alias.suffix
                     let (super_depth, s) = super_depth(alias);
+                    if super_depth > self.current_namespace.len() {
+                        return Err(self.error(CompilationErrorPayload::SuperLimitReached));
+                    }
 
                     let name = self
                         .current_namespace
